@@ -110,7 +110,7 @@ def v6Loop : Nat → Str → Nat → Bool → Bool
       if hexes.length > 4 then false               -- more than 4 digits in a group
       else if hexes.length = 0 then false          -- no digits
       else
-        let rest := s.drop hexes.length
+        let rest := s.dropWhile isHex
         if rest.head? = some '.' then
           -- embedded IPv4 at the end
           if !ell && i != 12 then false
